@@ -150,17 +150,57 @@ def d2_status_reaches_stop(ctx, rm: REModel):
     g = q.cfg(cr, q.quiet_policy(rm.repo))
     cs = A.find_calls(cr.node, "_compose_stop")
     ctx.require(cs, "anchor vanished: _compose_stop call in RunBundler.close_run")
-    ok = A.norm(A.kw(cs[0], "exit_status")) == "exit_status" and A.norm(A.kw(cs[0], "reason")) == "reason"
-    defs_ok = True
-    for name, key in (("exit_status", "exit_status"), ("reason", "reason")):
-        first = next((s for s in A.walk_stmts(cr.node.body) if any(isinstance(t, ast.Name) and t.id == name for t in A.targets_of(s))), None)
-        defs_ok = defs_ok and first is not None and f"msg.kwargs.get('{key}'" in A.norm(first)
-    ctx.ob("C02.D2-status-reaches-stop", cname(cr, None, "compose_stop(exit_status=<msg kwarg>, reason=<msg kwarg>)"), ok and defs_ok,
-           "" if ok and defs_ok else "the stop document's exit_status / reason no longer come from the close_run message", nontrivial=True, where=where(cr, cs[0]))
-    first = next((s for s in A.walk_stmts(cr.node.body) if any(isinstance(t, ast.Name) and t.id == "exit_status" for t in A.targets_of(s))), None)
-    ok = first is not None and '"success") or "success"' in A.norm(first).replace("'", '"')
+    # what reaches compose_stop, as a function of the close_run message's keyword arguments: the values are traced through the
+    # function's straight-line assignments and then EVALUATED for the cases key present / present-but-None / absent
+    def value_of(kwname):
+        e = A.kw(cs[0], kwname)
+        if e is None:
+            return None
+        # follow `x = ...` / `if x is None: x = ''` chains for plain names
+        if isinstance(e, ast.Name):
+            defs = [s_ for s_ in A.walk_stmts(cr.node.body) if any(isinstance(t, ast.Name) and t.id == e.id for t in A.targets_of(s_))]
+            return e.id, defs
+        return None, [ast.Assign(targets=[ast.Name(id="_", ctx=ast.Store())], value=e)]
+
+    def outcome(kwname, present):
+        got = value_of(kwname)
+        if got is None:
+            return "<missing>"
+        var, defs = got
+        val = "<unset>"
+        pmc = A.parents(cr.node)
+        for d in defs:
+            v = getattr(d, "value", None)
+            if v is None:
+                continue
+            guard = pmc.get(d)
+            if isinstance(guard, ast.If) and d in guard.body:
+                t = A.norm(guard.test)
+                cond = (val is None) if t == f"{var} is None" else ((not val) if t == f"not {var}" else None)
+                if cond is None:
+                    return "<unknown guard>"
+                if not cond:
+                    continue
+            try:
+                val = q.eval_lookup(v, "msg.kwargs", present)
+            except (ValueError, KeyError) as ex:
+                return f"<{type(ex).__name__}>"
+        return val
+    S = q._Sym("given")
+    exp = {"exit_status": [({"exit_status": S}, S), ({"exit_status": None}, "success"), ({}, "success")],
+           "reason": [({"reason": S}, S), ({"reason": None}, ""), ({}, "")]}
+    bad = []
+    for kwname, cases in exp.items():
+        for present, want in cases:
+            got = outcome(kwname, present)
+            if got is not want and got != want:
+                bad.append(f"{kwname} with message kwargs {present!r}: compose_stop gets {got!r}, expected {want!r}")
+    ok = defs_ok = not bad
+    ctx.ob("C02.D2-status-reaches-stop", cname(cr, None, "compose_stop(exit_status=<msg kwarg or 'success'>, reason=<msg kwarg or ''>), evaluated on 6 cases"), ok,
+           "" if ok else "; ".join(bad[:2]), nontrivial=True, where=where(cr, cs[0]))
+    ok = not any(b.startswith("exit_status") for b in bad)
     ctx.ob("C02.D2-status-reaches-stop", cname(cr, None, "missing / None exit_status means 'success'"), ok,
-           "" if ok else "the default exit_status of close_run is no longer 'success'", where=where(cr, first or cr.node))
+           "" if ok else "the default exit_status of close_run is no longer 'success'", where=where(cr, cs[0]))
 
 
 def d4_failed_status(ctx, rm: REModel):
